@@ -136,6 +136,29 @@ func VerifProbeStdlib() {
 			c += i + int(r)
 		}
 		nd.Assert(c > 0, "range")
+	case 20: // shifts, division, and-not on symbolic integers
+		u := uint64(n + 1000)
+		nd.Assert((u<<3)>>3 == u && u>>70 == 0 && u<<64 == 0, "shifts")
+		nd.Assert(n/7*7+n%7 == n && (n%7 < 7 && n%7 > -7), "division")
+		nd.Assert(u&^0xF == u-(u&0xF), "and-not")
+		k := uint(n+1000) % 70
+		nd.Assert(uint64(1)<<k != 0 || k >= 64, "shift-by-symbolic-count")
+		buf := make([]byte, 8)
+		binary.BigEndian.PutUint64(buf, u)
+		nd.Assert(binary.BigEndian.Uint64(buf) == u && hex.EncodeToString(buf)[:12] == "000000000000", "binary-symbolic")
+	case 21: // clear, slices.Delete / Insert
+		xs := []string{"a", s, "c"}
+		xs = slices.Delete(xs, 1, 2)
+		nd.Assert(len(xs) == 2 && xs[1] == "c", "slices-delete")
+		xs = slices.Insert(xs, 1, s)
+		nd.Assert(len(xs) == 3 && xs[1] == s, "slices-insert")
+		i, found := slices.BinarySearch([]string{"a", "c"}, "b")
+		nd.Assert(i == 1 && !found, "slices-binarysearch")
+		m := map[string]int{s: 1}
+		for k := range m {
+			delete(m, k)
+		}
+		nd.Assert(len(m) == 0, "map-delete-in-range")
 	}
 	nd.Reach("end")
 }
